@@ -1230,6 +1230,10 @@ fn codec_enumeration(cx: &mut Ctx) {
                                     table.insert(format!("{}::{}", rel, name), json!("not a RESP codec (environment / length-field helper; parse_usize_fast is part of the C04 recognisers)"));
                                 } else if private_helper {
                                     table.insert(format!("{}::{}", rel, name), json!("private helper of a library file whose codec functions are accounted for: reachable only through them"));
+                                } else if !is_bin && call_sites(&root, &name) == 0 {
+                                    // a new PUBLIC codec-like function that nothing in the tree calls cannot produce or
+                                    // consume a byte of the server's traffic: listed; the first call site makes it a violation
+                                    table.insert(format!("{}::{}", rel, name), json!("public, but called nowhere in src/ (unreachable for now): not driven; a call site makes it a violation"));
                                 } else {
                                     table.insert(format!("{}::{}", rel, name), json!("UNACCOUNTED"));
                                     cx.out.violation(&format!("C15:coverage:resp-codec-not-accounted:{}::{}", rel, name), "a function of the source tree looks like a RESP encoder / decoder and is neither in the model's table nor listed with the reason why not (harness/src/c15.rs codec_enumeration)", json!({"file": rel, "fn": name}));
@@ -1346,6 +1350,48 @@ pub fn match_brace(src: &[u8], open: usize) -> Option<usize> {
         i += 1;
     }
     None
+}
+
+/// number of call sites of `name` (`name(` not preceded by `fn `) in the non-test sources under `<root>/src`
+pub fn call_sites(root: &str, name: &str) -> usize {
+    fn walk(dir: &std::path::Path, out: &mut Vec<std::path::PathBuf>) {
+        if let Ok(rd) = std::fs::read_dir(dir) {
+            for e in rd.flatten() {
+                let p = e.path();
+                if p.is_dir() {
+                    walk(&p, out);
+                } else if p.extension().map(|x| x == "rs").unwrap_or(false) {
+                    out.push(p);
+                }
+            }
+        }
+    }
+    let mut files = Vec::new();
+    walk(std::path::Path::new(&format!("{}/src", root)), &mut files);
+    let pat = format!("{}(", name);
+    let mut n = 0;
+    for f in files {
+        let src = std::fs::read_to_string(&f).unwrap_or_default();
+        // (a `#[cfg(test)] mod tests` at the end of a file is not production code)
+        let src = match src.find("#[cfg(test)]") {
+            Some(i) => &src[..i],
+            None => &src[..],
+        };
+        let b = src.as_bytes();
+        let mut from = 0;
+        while let Some(off) = src[from..].find(&pat) {
+            let at = from + off;
+            from = at + pat.len();
+            let ident_before = at > 0 && (b[at - 1].is_ascii_alphanumeric() || b[at - 1] == b'_');
+            let is_def = src[..at].ends_with("fn ");
+            let line_start = src[..at].rfind('\n').map(|x| x + 1).unwrap_or(0);
+            let in_comment = src[line_start..at].trim_start().starts_with("//");
+            if !ident_before && !is_def && !in_comment {
+                n += 1;
+            }
+        }
+    }
+    n
 }
 
 /// the text of the function (free or method, any visibility) `name` of `src`, from the `fn` keyword to
